@@ -28,7 +28,7 @@ m = {
         'guard': 'verif',
         'enable': 'go build -tags verif (harness module with replace github.com/elnosh/gonuts => /repo)',
         'baseline_off_cmd': 'cd /repo && go test -mod=mod -vet=off -count=1 -timeout 25m ./...',
-        'source_commits': ['9690914'],
+        'source_commits': ['9690914', '2773197'],
         'add_only': True,
     },
     'engines': [{
